@@ -41,7 +41,7 @@ ASSUMPTIONS = [
     "the .fai/.agp cache beside a FASTA input is not an output file of the run",
 ]
 
-_SENTINEL_KINDS = ["empty", "short", "long", "long", "dangling_symlink", "symlink_elsewhere"]
+_SENTINEL_KINDS = ["empty", "short", "long", "long", "same", "dangling_symlink", "symlink_elsewhere"]
 
 
 def plan(tier):
@@ -182,8 +182,9 @@ class Runner:
                 p = os.path.join(self.outd, fn)
                 kind = kinds[fn]
                 old = w.clock - 100
-                if kind in ("empty", "short", "long"):
-                    data = {"empty": b"", "short": b"old\n", "long": C[fn] + b"#stale tail\n" * 40 + b"x" * 2048}[kind]
+                if kind in ("empty", "short", "long", "same"):
+                    # "same": left by an earlier identical run - still a collision
+                    data = {"empty": b"", "short": b"old\n", "long": C[fn] + b"#stale tail\n" * 40 + b"x" * 2048, "same": C[fn]}[kind]
                     with open(p, "wb") as fh:
                         fh.write(data)
                     w.stamp_path(p, old)
